@@ -29,6 +29,7 @@ struct Tape {
 	// record of what was consumed
 	std::vector<uint32_t> taken;
 	std::vector<uint32_t> bf; // branching factor (0 = 2^32)
+	FILE *trace = nullptr;    // optional: every choice is appended here as it is taken (crash triage)
 
 	uint32_t next_raw(uint64_t n)
 	{
@@ -52,6 +53,10 @@ struct Tape {
 		uint32_t v = n >= (1ull << 32) ? r : (uint32_t)(r % n);
 		taken.push_back(v);
 		bf.push_back(n >= (1ull << 32) ? 0 : (uint32_t)n);
+		if (trace) {
+			fprintf(trace, "%u\n", v);
+			fflush(trace);
+		}
 		return v;
 	}
 	bool flip() { return choose(2) != 0; }
